@@ -302,6 +302,51 @@ def other_point_forms(case, margin=0.05):
     return None
 
 
+def handwritten_cases():
+    """Models that the recipe language cannot express (a Parameter and a Variable sharing one name; a negative base under a symbolic
+    exponent), written directly against the public API, each with its closed-form value and gradient.
+    Returns [(name, build() -> (expr, [variables]), point dict, value, {variable name: partial})]."""
+    import math
+
+    import optyx
+
+    out = []
+
+    def c1():
+        t, u = optyx.Variable("t"), optyx.Variable("u")
+        p = optyx.Parameter("t", 1.5)  # parameters and variables are separate namespaces
+        return p * t ** 2 + optyx.sin(p * t) + u * p, [t, u]
+
+    pt = {"t": 0.7, "u": -1.2}
+    out.append(("parameter-named-like-a-variable", c1, pt, 1.5 * 0.49 + math.sin(1.05) - 1.8, {"t": 3.0 * 0.7 + 1.5 * math.cos(1.05), "u": 1.5}))
+
+    def c2():
+        x, q = optyx.VectorVariable("x", 2), optyx.VectorParameter("x", 2, [2.0, -1.0])
+        return q[0] * x[0] * x[1] + q[1] * x[1] ** 2, list(x)
+
+    out.append(("vector-parameter-named-like-a-vector", c2, {"x[0]": 0.5, "x[1]": 1.5}, 2.0 * 0.75 - 2.25, {"x[0]": 3.0, "x[1]": 1.0 - 3.0}))
+
+    def c3():
+        a, b, c = optyx.Variable("a"), optyx.Variable("b"), optyx.Variable("c")
+        return a ** b + c, [a, c]  # differentiated with respect to a and c only: d/db is undefined at a < 0
+
+    out.append(("negative-base-symbolic-integer-valued-exponent", c3, {"a": -2.0, "b": 3.0, "c": 0.25}, -8.0 + 0.25, {"a": 12.0, "c": 1.0}))
+
+    def c4():
+        a, c = optyx.Variable("a"), optyx.Variable("c")
+        n = optyx.Parameter("n", 2.0)
+        return (a * c) ** n + a, [a, c]
+
+    out.append(("negative-base-parameter-exponent", c4, {"a": -1.5, "c": 2.0}, 9.0 - 1.5, {"a": 2.0 * (-3.0) * 2.0 + 1.0, "c": 2.0 * (-3.0) * (-1.5)}))
+
+    def c5():
+        a, k = optyx.Variable("a"), optyx.Variable("k", domain="integer", lb=0, ub=5)
+        return (a - 1.0) ** k * 2.0, [a]
+
+    out.append(("negative-base-integer-variable-exponent", c5, {"a": -1.0, "k": 3.0}, -16.0, {"a": 2.0 * 3.0 * 4.0}))
+    return out
+
+
 DAG_FORMS = ["t*t+t", "sin(t)/(t*t+1.5)", "u*u-u/(t*t+2)", "exp(-t*t)*t"]
 
 
